@@ -1,1 +1,406 @@
-//! stub
+//! wirecheck: an INDEPENDENT parser/validator for the frames smoltcp emits. Written from the
+//! RFCs (791, 8200, 9293, 768, 792, 4443, 826, 1071); shares no code with `smoltcp::wire`.
+//! Used as oracle (C05, C08b, C10, ...) and as pretty printer for replays.
+
+use std::fmt;
+
+pub fn rfc1071_sum(parts: &[&[u8]]) -> u16 {
+    // one's complement sum of 16-bit big-endian words over the concatenation of parts;
+    // each part except the last must have even length (true for pseudo headers)
+    let mut acc: u64 = 0;
+    for p in parts {
+        let mut i = 0;
+        while i + 1 < p.len() {
+            acc += ((p[i] as u64) << 8) | p[i + 1] as u64;
+            i += 2;
+        }
+        if i < p.len() {
+            acc += (p[i] as u64) << 8;
+        }
+    }
+    while acc >> 16 != 0 {
+        acc = (acc & 0xffff) + (acc >> 16);
+    }
+    acc as u16
+}
+/// true if the data (which includes its checksum field) verifies
+pub fn rfc1071_ok(parts: &[&[u8]]) -> bool {
+    rfc1071_sum(parts) == 0xffff
+}
+
+#[derive(Clone, Debug, PartialEq, Eq, Hash, PartialOrd, Ord)]
+pub enum Addr {
+    V4([u8; 4]),
+    V6([u8; 16]),
+}
+impl fmt::Display for Addr {
+    fn fmt(&self, f: &mut fmt::Formatter) -> fmt::Result {
+        match self {
+            Addr::V4(a) => write!(f, "{}.{}.{}.{}", a[0], a[1], a[2], a[3]),
+            Addr::V6(a) => {
+                for i in 0..8 {
+                    if i > 0 {
+                        write!(f, ":")?;
+                    }
+                    write!(f, "{:x}", ((a[2 * i] as u16) << 8) | a[2 * i + 1] as u16)?;
+                }
+                Ok(())
+            }
+        }
+    }
+}
+impl Addr {
+    pub fn is_multicast(&self) -> bool {
+        match self {
+            Addr::V4(a) => a[0] >= 224 && a[0] <= 239,
+            Addr::V6(a) => a[0] == 0xff,
+        }
+    }
+    pub fn is_unspecified(&self) -> bool {
+        match self {
+            Addr::V4(a) => a == &[0; 4],
+            Addr::V6(a) => a == &[0; 16],
+        }
+    }
+    pub fn is_v4_limited_broadcast(&self) -> bool {
+        matches!(self, Addr::V4(a) if a == &[255; 4])
+    }
+    pub fn bytes(&self) -> &[u8] {
+        match self {
+            Addr::V4(a) => a,
+            Addr::V6(a) => a,
+        }
+    }
+}
+
+#[derive(Clone, Debug)]
+pub struct IpInfo {
+    pub version: u8,
+    pub src: Addr,
+    pub dst: Addr,
+    /// upper-layer protocol (after IPv6 extension headers that we understand: HBH)
+    pub proto: u8,
+    pub hop_limit: u8,
+    pub header_len: usize,
+    /// total length of the IP packet as declared by its length field(s)
+    pub total_len: usize,
+    pub payload_off: usize,
+    pub payload_len: usize,
+    // IPv4 only
+    pub ident: u16,
+    pub dont_frag: bool,
+    pub more_frags: bool,
+    pub frag_offset: usize,
+    pub header_checksum_ok: bool,
+}
+
+/// Parse and validate an IP packet that must occupy the WHOLE buffer.
+pub fn parse_ip(b: &[u8]) -> Result<IpInfo, String> {
+    if b.is_empty() {
+        return Err("empty IP packet".into());
+    }
+    match b[0] >> 4 {
+        4 => {
+            if b.len() < 20 {
+                return Err(format!("IPv4 packet of {} bytes", b.len()));
+            }
+            let ihl = ((b[0] & 0xf) as usize) * 4;
+            if ihl < 20 || ihl > b.len() {
+                return Err(format!("IPv4 IHL {} invalid for {} bytes", ihl, b.len()));
+            }
+            let total = ((b[2] as usize) << 8) | b[3] as usize;
+            if total != b.len() {
+                return Err(format!("IPv4 total length {} != frame payload {}", total, b.len()));
+            }
+            if total < ihl {
+                return Err("IPv4 total length < header length".into());
+            }
+            let flags = b[6] >> 5;
+            if flags & 0b100 != 0 {
+                return Err("IPv4 reserved flag set".into());
+            }
+            let fo = ((((b[6] & 0x1f) as usize) << 8) | b[7] as usize) * 8;
+            Ok(IpInfo {
+                version: 4,
+                src: Addr::V4([b[12], b[13], b[14], b[15]]),
+                dst: Addr::V4([b[16], b[17], b[18], b[19]]),
+                proto: b[9],
+                hop_limit: b[8],
+                header_len: ihl,
+                total_len: total,
+                payload_off: ihl,
+                payload_len: total - ihl,
+                ident: ((b[4] as u16) << 8) | b[5] as u16,
+                dont_frag: flags & 0b010 != 0,
+                more_frags: flags & 0b001 != 0,
+                frag_offset: fo,
+                header_checksum_ok: rfc1071_ok(&[&b[..ihl]]),
+            })
+        }
+        6 => {
+            if b.len() < 40 {
+                return Err(format!("IPv6 packet of {} bytes", b.len()));
+            }
+            let plen = ((b[4] as usize) << 8) | b[5] as usize;
+            if plen + 40 != b.len() {
+                return Err(format!("IPv6 payload length {} + 40 != frame payload {}", plen, b.len()));
+            }
+            let mut src = [0u8; 16];
+            src.copy_from_slice(&b[8..24]);
+            let mut dst = [0u8; 16];
+            dst.copy_from_slice(&b[24..40]);
+            let mut nh = b[6];
+            let mut off = 40;
+            // hop-by-hop options header (smoltcp emits it for MLD)
+            while nh == 0 {
+                if off + 8 > b.len() {
+                    return Err("IPv6 HBH header truncated".into());
+                }
+                let l = (b[off + 1] as usize + 1) * 8;
+                if off + l > b.len() {
+                    return Err("IPv6 HBH header length exceeds packet".into());
+                }
+                // validate option TLVs: must exactly fill the header
+                let mut o = off + 2;
+                while o < off + l {
+                    if b[o] == 0 {
+                        o += 1; // Pad1
+                    } else {
+                        if o + 2 > off + l {
+                            return Err("IPv6 HBH option truncated".into());
+                        }
+                        o += 2 + b[o + 1] as usize;
+                    }
+                }
+                if o != off + l {
+                    return Err("IPv6 HBH options do not fill the header (bad padding)".into());
+                }
+                nh = b[off];
+                off += l;
+            }
+            Ok(IpInfo {
+                version: 6,
+                src: Addr::V6(src),
+                dst: Addr::V6(dst),
+                proto: nh,
+                hop_limit: b[7],
+                header_len: off,
+                total_len: b.len(),
+                payload_off: off,
+                payload_len: b.len() - off,
+                ident: 0,
+                dont_frag: false,
+                more_frags: false,
+                frag_offset: 0,
+                header_checksum_ok: true,
+            })
+        }
+        v => Err(format!("IP version {}", v)),
+    }
+}
+
+pub fn pseudo_header(ip: &IpInfo, proto: u8, len: usize) -> Vec<u8> {
+    let mut v = vec![];
+    v.extend_from_slice(ip.src.bytes());
+    v.extend_from_slice(ip.dst.bytes());
+    match ip.version {
+        4 => {
+            v.push(0);
+            v.push(proto);
+            v.push((len >> 8) as u8);
+            v.push(len as u8);
+        }
+        _ => {
+            v.extend_from_slice(&(len as u32).to_be_bytes());
+            v.extend_from_slice(&[0, 0, 0, proto]);
+        }
+    }
+    v
+}
+
+pub const TCP_FIN: u8 = 0x01;
+pub const TCP_SYN: u8 = 0x02;
+pub const TCP_RST: u8 = 0x04;
+pub const TCP_PSH: u8 = 0x08;
+pub const TCP_ACK: u8 = 0x10;
+
+#[derive(Clone, Debug)]
+pub struct TcpInfo {
+    pub sport: u16,
+    pub dport: u16,
+    pub seq: u32,
+    pub ack: u32,
+    pub flags: u8,
+    pub win: u16,
+    pub header_len: usize,
+    pub mss: Option<u16>,
+    pub wscale: Option<u8>,
+    pub sack_permitted: bool,
+    pub sack: Vec<(u32, u32)>,
+    pub ts: Option<(u32, u32)>,
+    pub payload: Vec<u8>,
+    pub checksum_ok: bool,
+    /// sequence space consumed: payload + SYN + FIN
+    pub seg_len: usize,
+}
+impl TcpInfo {
+    pub fn has(&self, f: u8) -> bool {
+        self.flags & f != 0
+    }
+    pub fn flag_str(&self) -> String {
+        let mut s = String::new();
+        for (f, n) in [(TCP_SYN, "S"), (TCP_FIN, "F"), (TCP_RST, "R"), (TCP_PSH, "P"), (TCP_ACK, ".")] {
+            if self.has(f) {
+                s.push_str(n);
+            }
+        }
+        s
+    }
+}
+
+/// Parse and validate a TCP segment carried by `ip` in packet `b` (the whole IP packet).
+pub fn parse_tcp(ip: &IpInfo, b: &[u8]) -> Result<TcpInfo, String> {
+    let t = &b[ip.payload_off..ip.payload_off + ip.payload_len];
+    if t.len() < 20 {
+        return Err(format!("TCP segment of {} bytes", t.len()));
+    }
+    let hl = ((t[12] >> 4) as usize) * 4;
+    if hl < 20 || hl > t.len() {
+        return Err(format!("TCP data offset {} invalid for segment of {} bytes", hl, t.len()));
+    }
+    if t[12] & 0x0f != 0 {
+        return Err("TCP reserved bits set".into());
+    }
+    let flags = t[13];
+    let mut info = TcpInfo {
+        sport: ((t[0] as u16) << 8) | t[1] as u16,
+        dport: ((t[2] as u16) << 8) | t[3] as u16,
+        seq: u32::from_be_bytes([t[4], t[5], t[6], t[7]]),
+        ack: u32::from_be_bytes([t[8], t[9], t[10], t[11]]),
+        flags,
+        win: ((t[14] as u16) << 8) | t[15] as u16,
+        header_len: hl,
+        mss: None,
+        wscale: None,
+        sack_permitted: false,
+        sack: vec![],
+        ts: None,
+        payload: t[hl..].to_vec(),
+        checksum_ok: false,
+        seg_len: 0,
+    };
+    // options: each option must lie inside the header; list ends at EOL or header end;
+    // after EOL only zero padding is allowed
+    let mut o = 20;
+    while o < hl {
+        match t[o] {
+            0 => {
+                if t[o..hl].iter().any(|&x| x != 0) {
+                    return Err("TCP option padding after End-of-List is not zero".into());
+                }
+                break;
+            }
+            1 => o += 1,
+            kind => {
+                if o + 2 > hl {
+                    return Err("TCP option header truncated".into());
+                }
+                let l = t[o + 1] as usize;
+                if l < 2 || o + l > hl {
+                    return Err(format!("TCP option kind {} length {} invalid", kind, l));
+                }
+                let d = &t[o + 2..o + l];
+                match kind {
+                    2 => {
+                        if l != 4 {
+                            return Err("TCP MSS option length != 4".into());
+                        }
+                        info.mss = Some(((d[0] as u16) << 8) | d[1] as u16);
+                    }
+                    3 => {
+                        if l != 3 {
+                            return Err("TCP window scale option length != 3".into());
+                        }
+                        info.wscale = Some(d[0]);
+                    }
+                    4 => {
+                        if l != 2 {
+                            return Err("TCP SACK-permitted option length != 2".into());
+                        }
+                        info.sack_permitted = true;
+                    }
+                    5 => {
+                        if (l - 2) % 8 != 0 || l == 2 {
+                            return Err("TCP SACK option length invalid".into());
+                        }
+                        for c in d.chunks(8) {
+                            info.sack.push((
+                                u32::from_be_bytes([c[0], c[1], c[2], c[3]]),
+                                u32::from_be_bytes([c[4], c[5], c[6], c[7]]),
+                            ));
+                        }
+                    }
+                    8 => {
+                        if l != 10 {
+                            return Err("TCP timestamp option length != 10".into());
+                        }
+                        info.ts = Some((
+                            u32::from_be_bytes([d[0], d[1], d[2], d[3]]),
+                            u32::from_be_bytes([d[4], d[5], d[6], d[7]]),
+                        ));
+                    }
+                    _ => {}
+                }
+                o += l;
+            }
+        }
+    }
+    if (info.mss.is_some() || info.wscale.is_some() || info.sack_permitted) && flags & TCP_SYN == 0 {
+        return Err("TCP MSS / window-scale / SACK-permitted option on a non-SYN segment".into());
+    }
+    let ph = pseudo_header(ip, 6, t.len());
+    info.checksum_ok = rfc1071_ok(&[&ph, t]);
+    info.seg_len = info.payload.len() + (flags & TCP_SYN != 0) as usize + (flags & TCP_FIN != 0) as usize;
+    Ok(info)
+}
+
+pub fn describe_ip_frame(b: &[u8]) -> String {
+    match parse_ip(b) {
+        Err(e) => format!("<unparsable IP: {}>", e),
+        Ok(ip) => {
+            if ip.proto == 6 && ip.frag_offset == 0 && !ip.more_frags {
+                match parse_tcp(&ip, b) {
+                    Ok(t) => format!(
+                        "TCP {}:{}>{}:{} [{}] seq={} ack={} win={} len={}{}{}{}",
+                        ip.src,
+                        t.sport,
+                        ip.dst,
+                        t.dport,
+                        t.flag_str(),
+                        t.seq,
+                        t.ack,
+                        t.win,
+                        t.payload.len(),
+                        t.mss.map(|m| format!(" mss={}", m)).unwrap_or_default(),
+                        t.wscale.map(|m| format!(" ws={}", m)).unwrap_or_default(),
+                        if t.checksum_ok { "" } else { " BADCSUM" }
+                    ),
+                    Err(e) => format!("<bad TCP: {}>", e),
+                }
+            } else {
+                format!("IPv{} {}>{} proto={} len={}", ip.version, ip.src, ip.dst, ip.proto, ip.total_len)
+            }
+        }
+    }
+}
+
+/// modular comparison helpers on 32-bit sequence numbers
+pub fn seq_lt(a: u32, b: u32) -> bool {
+    (a.wrapping_sub(b) as i32) < 0
+}
+pub fn seq_le(a: u32, b: u32) -> bool {
+    (a.wrapping_sub(b) as i32) <= 0
+}
+pub fn seq_diff(a: u32, b: u32) -> i64 {
+    a.wrapping_sub(b) as i32 as i64
+}
